@@ -33,6 +33,8 @@ fn enc_lit(l: &proc_macro2::Literal) -> String {
         format!("Li{}", s)
     } else if let Ok(f) = s.parse::<f64>() {
         format!("Lf{:016x}", f.to_bits())
+    } else if s.starts_with(|c: char| c.is_ascii_digit()) {
+        "Lon".into()
     } else {
         "Lo".into()
     }
@@ -149,7 +151,11 @@ pub fn macrogen(seed: u64, n: usize) -> String {
     let mut k = 0;
     while k < n {
         // the first program is always the recorded known finding, so that every run exhibits it
-        let (src, text) = if k == 0 { ("(- 1 2)".to_string(), "(- 1 2)".to_string()) } else { gen_sx(&mut r, 0, true) };
+        let (src, text) = if k == 0 { ("(- 1 2)".to_string(), "(- 1 2)".to_string()) }
+            // regression: a minus sign before a character or string literal is the symbol `-`
+            else if k == 1 { ("(- 'a' \"s\")".to_string(), "(- #\\a \"s\")".to_string()) }
+            else if k == 2 { ("(#t #f - '0')".to_string(), "(#t #f - #\\0)".to_string()) }
+            else { gen_sx(&mut r, 0, true) };
         if text.contains("|unprintable|") || TokenStream::from_str(&src).is_err() { continue; }
         // the inherent `- 1` ambiguity: a lone minus directly before a numeric literal
         let known = src.contains("- 0") || src.contains("- 1") || src.contains("- 2") || src.contains("- 3") || src.contains("- 4") || src.contains("- 5") || src.contains("- 6") || src.contains("- 7") || src.contains("- 8") || src.contains("- 9");
